@@ -26,6 +26,9 @@ pub struct FuzzCfg {
     pub ignore_choke: u64,
     /// per mille chance per step to go NotInterested for 12 s and come back
     pub sulk: u64,
+    /// now and then say NotInterested exactly on a multiple of 10 s of virtual time (when the choke
+    /// rotation runs) and come back 0.2-6 s later
+    pub sulk_on_tick: bool,
     /// pieces this peer advertises (it never unchokes us; advertising something the client lacks
     /// keeps the client interested, so that our NotInterested does not end the connection)
     pub have: Vec<bool>,
@@ -54,8 +57,10 @@ pub fn fuzz_leecher(cfg: FuzzCfg) -> Behaviour {
         loop {
             let now = io.log.now_ms();
             if now >= cfg.end_ms { io.close(); return; }
+            // (about every tick: whatever else it does in between takes less than 10 s)
+            let tick_sulk = cfg.sulk_on_tick && sulk_until.is_none() && (now % 10_000 > 6_500 || io.rng.chance(1, 2));
             let wait = io.rng.range(cfg.pace_ms.0, cfg.pace_ms.1).max(1);
-            let until = now + wait;
+            let until = if tick_sulk { (now / 10_000 + 1) * 10_000 } else { now + wait };
             // drain while waiting
             loop {
                 let now = io.log.now_ms();
@@ -71,6 +76,11 @@ pub fn fuzz_leecher(cfg: FuzzCfg) -> Behaviour {
                         _ => (),
                     },
                 }
+            }
+            if tick_sulk {
+                if !io.send(&Msg::NotInterested).await { return; }
+                sulk_until = Some(io.log.now_ms() + io.rng.range(200, 6_000));
+                continue;
             }
             if let Some(u) = sulk_until {
                 if io.log.now_ms() >= u { sulk_until = None; if !io.send(&Msg::Interested).await { return; } } else { continue; }
@@ -200,8 +210,9 @@ pub fn gen_scenario(r: &mut Rng, seed: u64) -> Scenario {
     let mut s = SeederCfg::honest(peer_id(0), have.clone());
     s.unchoke_after_ms = Some(0);
     s.idle_close_ms = 200_000;
+    s.request_back = *r.pick(&[0u64, 0, 500, 1000]);
     let s2 = s.clone();
-    pdesc.push(json!({"addr": addr(0), "persona": "seeder", "pieces": have.iter().map(|b| if *b { '1' } else { '0' }).collect::<String>()}));
+    pdesc.push(json!({"addr": addr(0), "persona": "seeder", "asks_back_permille": s.request_back, "pieces": have.iter().map(|b| if *b { '1' } else { '0' }).collect::<String>()}));
     peers.push(PeerSpec { addr: addr(0), id: peer_id(0), entry: Entry::Dialled { from_announce: 0 }, make: Box::new(move |nth| if nth > 1 { None } else { Some(seeder(s2.clone())) }), chunk: 0, pipe: 1 << 20 });
     let n_in = r.range(1, 4) as usize;
     let n_dial = match r.below(3) { 0 => 0, 1 => r.range(1, 4) as usize, _ => r.range(8, 11) as usize };
@@ -214,9 +225,9 @@ pub fn gen_scenario(r: &mut Rng, seed: u64) -> Scenario {
         let c = if crowded && r.chance(4, 5) {
             // long-lived, mostly well-behaved downloaders competing for the 10 upload slots; they keep
             // asking after having been choked
-            FuzzCfg { id: peer_id(k), incoming, start_ms: r.range(200, 3000), end_ms: dur - 2000, pace_ms: match r.below(3) { 0 => (20, 300), 1 => (100, 1500), _ => (500, 4000) }, fuzz: *r.pick(&[0u64, 0, 5]), ignore_choke: *r.pick(&[300u64, 1000]), sulk: 0, have: if r.chance(1, 2) { withheld.clone() } else { vec![false; n] } }
+            FuzzCfg { id: peer_id(k), incoming, start_ms: r.range(200, 3000), end_ms: dur - 2000, pace_ms: match r.below(3) { 0 => (20, 300), 1 => (100, 1500), _ => (500, 4000) }, fuzz: *r.pick(&[0u64, 0, 5]), ignore_choke: *r.pick(&[300u64, 1000]), sulk: 0, sulk_on_tick: false, have: if r.chance(1, 2) { withheld.clone() } else { vec![false; n] } }
         } else {
-            FuzzCfg { id: peer_id(k), incoming, start_ms: r.range(500, 4000), end_ms: dur - 2000, pace_ms: match r.below(3) { 0 => (20, 300), 1 => (100, 1500), _ => (500, 4000) }, fuzz: *r.pick(&[0u64, 30, 100, 400]), ignore_choke: *r.pick(&[0u64, 200, 1000]), sulk: *r.pick(&[0u64, 20, 60, 150]), have: if r.chance(2, 3) { withheld.clone() } else { vec![false; n] } }
+            FuzzCfg { id: peer_id(k), incoming, start_ms: r.range(500, 4000), end_ms: dur - 2000, pace_ms: match r.below(3) { 0 => (20, 300), 1 => (100, 1500), _ => (500, 4000) }, fuzz: *r.pick(&[0u64, 30, 100, 400]), ignore_choke: *r.pick(&[0u64, 200, 1000]), sulk: *r.pick(&[0u64, 20, 60, 150]), sulk_on_tick: false, have: if r.chance(2, 3) { withheld.clone() } else { vec![false; n] } }
         };
         pdesc.push(json!({"addr": addr(k), "persona": "request-fuzzer", "incoming": incoming, "fuzz_permille": c.fuzz, "ignore_choke_permille": c.ignore_choke, "sulk_permille": c.sulk, "advertises_withheld_pieces": c.have.iter().any(|b| *b), "pace_ms": [c.pace_ms.0, c.pace_ms.1]}));
         let c2 = c.clone();
@@ -234,6 +245,10 @@ pub fn trace_for(o: &Outcome, a: &str, at_seq: u64) -> Vec<String> {
 
 pub fn run(ctx: &Ctx) -> Report {
     let mut rep = Report::new();
+    if ctx.want("direct") {
+        // the manager's decision, asked directly after every step of choke/interest/rotation histories
+        super::c13::run_c09_direct(ctx, &mut rep);
+    }
     rep.need("pieces_served", 1000);
     rep.need("requests_refused", 1000);
     let mut r = ctx.rng("c09");
